@@ -8,6 +8,7 @@ import (
 	"net/http"
 	"os"
 	"path/filepath"
+	"strings"
 	"sync"
 	"time"
 
@@ -36,7 +37,8 @@ type RetransParams struct {
 	TMs      int    `json:"tMs"`  // resp_timeout
 	IMs      int    `json:"iMs"`  // heart_beat_interval
 	Rounds   int    `json:"rounds"`
-	PeerIP   string `json:"peerIp"` // initiate: address the agent dials
+	PeerIP   string `json:"peerIp"`   // initiate: address the agent dials
+	Datapath string `json:"datapath"` // connect mode: bess (default) | up4
 }
 
 type rtPlan struct {
@@ -67,6 +69,12 @@ func e2eRetransWorker(args []string) error {
 		HBTimer: p.Mode != "connect", HBInterval: fmt.Sprintf("%dms", p.IMs), UEIPAlloc: rng.Intn(2) == 0, UEPool: "10.250.0.0/24", EndMarker: rng.Intn(2) == 0}
 	if p.Mode == "initiate" {
 		cfg.Peers = []string{p.PeerIP}
+	}
+
+	if p.Datapath == "up4" {
+		u := up4Cfg(rng, p.N4Addr)
+		u.HBTimer, u.HBInterval, u.RespTimeout, u.MaxReqRetries, u.ReadTimeout = cfg.HBTimer, cfg.HBInterval, cfg.RespTimeout, cfg.MaxReqRetries, cfg.ReadTimeout
+		cfg = u
 	}
 
 	w, err := e2e.NewWorld(filepath.Join(p.Dir, "w"), p.AgentBin, p.Trace, cfg, int(p.Seed%1000)*1000+1)
@@ -378,7 +386,15 @@ func e2eRetransWorker(args []string) error {
 					}
 				}
 
-				if nudge { // a metrics scrape makes the agent attempt an RPC, which lets the idle gRPC channel reconnect
+				if nudge && w.P4 != nil {
+					// UP4: the plug-in looks at its channel again when it has something to write (or every two minutes); a
+					// slice configuration request makes it try to connect
+					doc := `{"sliceName":"s","sliceQos":{"uplinkMbr":10,"downlinkMbr":10,"bitrateUnit":"Mbps","uplinkBurstSize":1000,"downlinkBurstSize":1000}}`
+					if resp, err := (&http.Client{Timeout: 3 * time.Second}).Post(w.Agent.HTTPBase()+"/v1/config/network-slices", "application/json", strings.NewReader(doc)); err == nil {
+						_, _ = io.Copy(io.Discard, resp.Body)
+						resp.Body.Close()
+					}
+				} else if nudge { // a metrics scrape makes the agent attempt an RPC, which lets the idle gRPC channel reconnect
 					if resp, err := (&http.Client{Timeout: time.Second}).Get(w.Agent.HTTPBase() + "/metrics"); err == nil {
 						_, _ = io.Copy(io.Discard, resp.Body)
 						resp.Body.Close()
@@ -397,7 +413,12 @@ func e2eRetransWorker(args []string) error {
 
 			w.Assoc(a)
 			w.Heartbeat(a)
-			w.Bess.Stop()
+
+			if w.P4 != nil {
+				w.P4.Stop()
+			} else {
+				w.Bess.Stop()
+			}
 
 			if !waitConn(false, true) {
 				return fail("the agent never noticed that the datapath went away")
@@ -407,7 +428,11 @@ func e2eRetransWorker(args []string) error {
 			w.Assoc(b)     // must be rejected, features still advertised
 			w.Assoc(a)
 
-			if err := w.Bess.Restart(); err != nil {
+			if w.P4 != nil {
+				if err := w.P4.Restart(); err != nil {
+					return fail("restart of the P4Runtime server: %v", err)
+				}
+			} else if err := w.Bess.Restart(); err != nil {
 				return fail("restart of the BESS server: %v", err)
 			}
 
@@ -431,7 +456,7 @@ func e2eRetransWorker(args []string) error {
 // C12: association, heartbeat and retransmission contract.
 func C12(c *core.Ctx) {
 	c.SetCov("rule", "scripted lossy peer for agent-originated Heartbeat Requests and UPF-initiated Association Setup Requests: answer the k-th transmission (k = 1..N+1), none, late, twice, with wrong "+
-		"sequence numbers, without Cause, rejected; N in {1,2,3}, response time-outs 40-60 ms; peer heartbeat at mid-interval; datapath stopped / restarted around association attempts with the agent's "+
+		"sequence numbers, without Cause, rejected; N in {1,2,3}, response time-outs 40-60 ms; peer heartbeat at mid-interval; datapath (BESS server, and the P4Runtime switch of the UP4 plug-in) stopped / restarted around association attempts with the agent's "+
 		"isConnected read from the guarded snapshot; random feature configurations; model: Retrans.tla (loop as coded, adversarial peer, N = 3); evaluations = script steps")
 	c.Assume("timing is judged with one-sided 20 % tolerances on the harness' clock; 'connected' is the agent's own view (snapshot) immediately before the request")
 
@@ -447,21 +472,26 @@ func C12(c *core.Ctx) {
 		n, t, i, r int
 	}
 
-	specs := []sp{{"hb", 1, 40, 100, 1}, {"hb", 2, 40, 100, 1}, {"initiate", 1, 40, 100, 3}, {"initiate", 2, 50, 120, 3}, {"connect", 5, 2000, 100, 1}, {"hb", 3, 40, 90, 1}}
+	specs := []sp{{"hb", 1, 40, 100, 1}, {"hb", 2, 40, 100, 1}, {"initiate", 1, 40, 100, 3}, {"initiate", 2, 50, 120, 3}, {"connect", 5, 2000, 100, 1}, {"hb", 3, 40, 90, 1}, {"connect-up4", 5, 2000, 100, 1}}
 	if c.Thorough() {
 		specs = nil
 		for n := 1; n <= 5; n++ {
 			specs = append(specs, sp{"hb", n, 40, 100, 4}, sp{"hb", n, 60, 150, 3})
 		}
 
-		specs = append(specs, sp{"initiate", 1, 40, 100, 12}, sp{"initiate", 3, 50, 120, 12}, sp{"connect", 5, 2000, 100, 4}, sp{"connect", 5, 2000, 100, 4})
+		specs = append(specs, sp{"initiate", 1, 40, 100, 12}, sp{"initiate", 3, 50, 120, 12}, sp{"connect", 5, 2000, 100, 4}, sp{"connect", 5, 2000, 100, 4}, sp{"connect-up4", 5, 2000, 100, 4})
 	}
 
 	res := runE2EMixed(c, len(specs), "TraceE2E_C12.cfg", func(i int) (string, interface{}) {
 		dir, trace := shardDir(c, i)
 		s := specs[i]
+		dp := ""
 
-		return "e2e-retrans", RetransParams{Dir: dir, Trace: trace, AgentBin: filepath.Join(c.BinDir, "verif-agent"), N4Addr: n4For(i), Seed: c.Seed*1000 + 120 + int64(i),
+		if s.mode == "connect-up4" {
+			s.mode, dp = "connect", "up4"
+		}
+
+		return "e2e-retrans", RetransParams{Datapath: dp, Dir: dir, Trace: trace, AgentBin: filepath.Join(c.BinDir, "verif-agent"), N4Addr: n4For(i), Seed: c.Seed*1000 + 120 + int64(i),
 			Mode: s.mode, N: s.n, TMs: s.t, IMs: s.i, Rounds: s.r, PeerIP: fmt.Sprintf("127.%d.%d.%d", 130+(os.Getpid()/250)%100, 1+os.Getpid()%250, 100+i)}
 	})
 	judgeE2E(c, res, map[string]bool{"InEnvelope": true})
